@@ -123,8 +123,10 @@ def run(ck, w):
             if not any("AfterBand" in " ".join(x[2]) or "0" in x[2] for x in a if x[0] in ("param", "upvar")):
                 pass
         # closed==true must lead to Done: from the true edge no BeforeBand construction is reachable before the state store
+        closed_l = {l_: 1 for l_ in flow.result_carriers(sn, uo[0].dest["l"]) if sn.locals[l_] == "bool"}
         for (u, v) in t_edges:
-            region = sn.reachable(v, removed_nodes={sb})
+            # (the flag may be looked at twice - `if closed {..}` and later `match (closed, prev)` -: it keeps its value)
+            region = rules.reachable_const(sn, v, env0=closed_l, removed_nodes={sb})
             for bb, s in agg_by_arm.get("AfterBand", []):
                 if bb in region and s["rv"]["variant"] != "Done":
                     bad.append("a closed band does not end the stitch")
@@ -151,7 +153,24 @@ def run(ck, w):
            "archive::Archive::band_exists" in flow.origin_calls(flow.origins_x(lib, pb, e.args[0]))]
     somes = [(bb, s) for bb, j, s in rules.agg_sites(pb, "std::option::Option", "Some") if s["pl"]["l"] == 0]
     prev = [e for e in pb.events if e.bb in pb.live and e.name == "bandid::BandId::previous"]
-    if not uo2 or not somes or not prev:
+    if uo2 and prev and not somes:
+        # the candidate - the Option returned by previous() - is itself what is returned (`while let Some(id) = candidate { if
+        # exists(id) { break } candidate = id.previous() } candidate`): every return lies behind band_exists==true or behind
+        # the candidate being None, and what is tested and returned is stepped by BandId::previous
+        te = rules.bool_switch_edges(pb, uo2[0], True)
+        ne = set()
+        for e in prev:
+            ne |= flow.none_edges(pb, e)[0]
+        c = rules.creators_of(pb, "archive::Archive::band_exists")
+        tested = flow.origins_x(lib, pb, c[0].args[1]) if c else set()
+        ret = flow.origins_x(lib, pb, 0)
+        if not te or not all(pb.must_pass_edges(te | ne, bb) for bb in pb.return_blocks()):
+            ck.fail(o, pb.name, "returns a band that was not found to exist", "the candidate can be returned without band_exists==true")
+        elif "bandid::BandId::previous" not in flow.origin_calls(tested) or flow.origin_calls(ret) - {"bandid::BandId::previous"}:
+            ck.fail(o, pb.name, "id not stepped by BandId::previous", "tested %s; returned %s" % (flow.origin_summary(tested), flow.origin_summary(ret)))
+        else:
+            ck.ok(o, "the candidate from BandId::previous is returned as it is")
+    elif not uo2 or not somes or not prev:
         ck.fail(o, pb.name, "search loop changed", "band_exists tests=%d returns=%d previous calls=%d" % (len(uo2), len(somes), len(prev)))
     else:
         te = rules.bool_switch_edges(pb, uo2[0], True)
